@@ -20,6 +20,7 @@ struct Stats {
     completed_sets: AtomicU64,
     incomplete_sets: AtomicU64,
     oracle_evals: AtomicU64,
+    flood_sets: AtomicU64,
 }
 
 /// what the set of distinct packets received so far determines, per block (monotone)
@@ -340,6 +341,112 @@ fn run_set(ctx: &Ctx, gf: &Gf, seed: u64, idx: u64, st: &Stats) {
     }
 }
 
+/// Flood sets (from C02's hostile family): more than L repair symbols taken from a few classes of ids
+/// with identical LT rows (rank far below L) plus the symbols that complete the rank. The answer must
+/// not depend on whether the flood arrives first, last or interleaved, and must follow the rank oracle
+/// after every call.
+fn run_flood_set(ctx: &Ctx, gf: &Gf, seed: u64, idx: u64, st: &Stats) {
+    let fc = super::c02::gen_flood_case(seed ^ 0x0808_f100d, idx);
+    let (K, T) = (fc.K, fc.T);
+    let mut rng = Rng::derive(seed, 0x0809, idx);
+    let data = rng.bytes(K * T);
+    let s = Shape { F: K * T, T, Z: 1, N: 1, Al: 1 };
+    let replay = || J::obj(vec![("flood", J::i(1)), ("seed", J::i(seed)), ("idx", J::i(idx)), ("K", J::i(K)), ("T", J::i(T)), ("distinct_symbols", J::i(fc.arrivals.len())), ("sparse_threshold", J::i(fc.threshold))]);
+    let sig = |what: &str, hi: usize| format!("C08 flood {what} seed={seed} idx={idx} history={hi}");
+    let built = guarded(|| {
+        let cfg = s.cfg();
+        let enc = Encoder::new(&data, cfg);
+        (cfg, enc)
+    });
+    let (cfg, enc) = match built {
+        Ok(x) => x,
+        Err(m) => {
+            ctx.violation(sig("encoder-panic", 0), format!("encoder for K={K} panicked: {}", short(&m, 100)), replay());
+            return;
+        }
+    };
+    let base: Vec<(u8, u32)> = fc.arrivals.iter().map(|&e| (0u8, e)).collect();
+    let mut finals = vec![];
+    for hi in 0..5usize {
+        let mut hist = base.clone();
+        match hi {
+            0 => {}                  // flood first (as generated)
+            1 => hist.reverse(),     // flood last
+            2 => hist.sort_unstable(),
+            _ => rng.shuffle(&mut hist),
+        }
+        // a few re-deliveries in between and after the end
+        for _ in 0..rng.below(6) {
+            let p = *rng.pick(&base);
+            let at = rng.below(hist.len() as u64 + 1) as usize;
+            hist.insert(at, p);
+        }
+        let pk = match guarded(|| packets_for(&enc, &[K], &hist)) {
+            Ok(p) => p,
+            Err(m) => {
+                ctx.violation(sig("packets-panic", hi), format!("producing packets panicked: {}", short(&m, 100)), replay());
+                return;
+            }
+        };
+        let mut d1 = Decoder::new(cfg);
+        d1.verif_set_sparse_threshold(fc.threshold);
+        let mut oracle = SetOracle::new(gf, &[K]);
+        let mut first: Option<Vec<u8>> = None;
+        for (i, p) in pk.iter().enumerate() {
+            let (_, e) = hist[i];
+            oracle.add(0, e);
+            let a = match guarded(|| if hi % 2 == 0 { d1.decode(p.clone()) } else { d1.add_new_packet(p.clone()); d1.get_result() }) {
+                Ok(a) => a,
+                Err(m) => {
+                    ctx.violation(sig("decoder-panic", hi), format!("K={K}: decoder panicked at call {i} (ESI={e}) of flood history {hi}: {}", short(&m, 120)), replay());
+                    return;
+                }
+            };
+            st.calls.fetch_add(1, Relaxed);
+            if a.is_some() != oracle.all() {
+                ctx.violation(
+                    sig("set-determinism", hi),
+                    format!("K={K}: after call {i} of flood history {hi} ({} distinct symbols received, {} of them before the flood ended) the decoder answers {} but the set of distinct symbols {} the block", oracle.have[0].len(), fc.batch_first, if a.is_some() { "Some" } else { "None" }, if oracle.all() { "determines" } else { "does not determine" }),
+                    replay(),
+                );
+                return;
+            }
+            if let Some(v) = a {
+                if v != data {
+                    ctx.violation(sig("wrong-bytes", hi), format!("K={K}: flood history {hi} call {i}: wrong bytes"), replay());
+                    return;
+                }
+                if first.is_none() {
+                    first = Some(v);
+                }
+            }
+        }
+        st.histories.fetch_add(1, Relaxed);
+        st.oracle_evals.fetch_add(oracle.evals, Relaxed);
+        finals.push(first.is_some());
+        // the same packets in one block-level call
+        if hi == 0 || hi == 1 {
+            let one = guarded(|| {
+                let mut d = SourceBlockDecoder::new(0, &cfg, (K * T) as u64);
+                d.verif_set_sparse_threshold(fc.threshold);
+                d.decode(pk.iter().cloned())
+            });
+            match one {
+                Err(m) => ctx.violation(sig("batch-panic", hi), format!("K={K}: one-shot decode of the flood set panicked: {}", short(&m, 120)), replay()),
+                Ok(v) => {
+                    if v.is_some() != first.is_some() {
+                        ctx.violation(sig("batch-vs-single", hi), format!("K={K}: one-shot decode of the flood set answers {} but packet-by-packet delivery ends with {}", v.is_some(), first.is_some()), replay());
+                    }
+                }
+            }
+        }
+    }
+    if finals.iter().any(|&f| f != finals[0]) {
+        ctx.violation(sig("final-answers-differ", 0), format!("K={K}: the same {} distinct symbols delivered flood-first / flood-last / sorted / shuffled ended with different answers {:?}", base.len(), finals), replay());
+    }
+    st.flood_sets.fetch_add(1, Relaxed);
+}
+
 pub fn run(ctx: &Ctx) -> i32 {
     let gf = Gf::new();
     let st = Stats::default();
@@ -347,7 +454,11 @@ pub fn run(ctx: &Ctx) -> i32 {
         let j = parse_json(&std::fs::read_to_string(p).expect("replay file")).expect("json");
         let c = j.get("case").unwrap();
         ctx.eval(1);
-        run_set(ctx, &gf, c.u("seed"), c.u("idx"), &st);
+        if c.get("flood").is_some() {
+            run_flood_set(ctx, &gf, c.u("seed"), c.u("idx"), &st);
+        } else {
+            run_set(ctx, &gf, c.u("seed"), c.u("idx"), &st);
+        }
         ctx.nontrivial(1);
         ctx.nontrivial(2);
         return ctx.finish("replay of one recorded packet set (all its histories)", &[], vec![]);
@@ -364,6 +475,15 @@ pub fn run(ctx: &Ctx) -> i32 {
             ctx.sample(|| J::obj(vec![("idx", J::i(i)), ("shape", c.shape.json()), ("distinct_packets", J::i(c.history.iter().collect::<HashSet<_>>().len())), ("histories", J::s("8..14 (quick) / 8..30 (thorough): in order, reversed, sorted, round-robin, shuffled; duplicates 0-3x immediate or later; 5-50 re-deliveries after the end; new packets after completion"))]));
         }
     });
+    if ctx.args.ex("n").is_none() {
+        par_for(ctx.args.pick(300, 6000), |i| {
+            if !ctx.too_many_violations() {
+                run_flood_set(ctx, &gf, ctx.seed(), i as u64, &st);
+                ctx.eval(1);
+            }
+        });
+    }
+    ctx.cov("flood_sets_(more_than_L_dependent_repair_symbols_before_/_after_the_completing_ones)", J::i(st.flood_sets.load(Relaxed)));
     ctx.cov("histories_run", J::i(st.histories.load(Relaxed)));
     ctx.cov("decoder_calls_monitored_x3_observers", J::i(st.calls.load(Relaxed)));
     ctx.cov("rank_oracle_evaluations", J::i(st.oracle_evals.load(Relaxed)));
@@ -375,7 +495,7 @@ pub fn run(ctx: &Ctx) -> i32 {
     ctx.floor("block_level_batchings_compared", st.batchings.load(Relaxed), if q { 500 } else { 1 });
     ctx.floor("double_count_traps_(K-1_distinct_source_+_duplicate)", st.trap.load(Relaxed), if q { 500 } else { 1 });
     ctx.finish(
-        "packet set = distinct (SBN,ESI) ids of a generated case (Z up to 8, K up to 60, loss 0-70 %, repair ESIs over the 24-bit range, all three sparse thresholds); per set 8-30 delivery histories (orders: as generated / reversed / sorted / round-robin over blocks / shuffled; each packet repeated 0-3x immediately or later; 5-50 re-deliveries after the end; new packets after completion; the K-1-distinct-source-plus-duplicate trap first). Trace checker after EVERY call: decode() = add_new_packet()+get_result() = a decoder fed through a random mix of both entry points = clone taken at a random point; answer is Some iff every block's distinct received set is decodable (all source present or rank oracle of C02); once Some, always the identical bytes = the object. Block level: packet-by-packet = random batches = one shot, at every batch boundary. non-trivial = history with at least one duplicate delivered after completion; distinct by history hash",
+        "packet set = distinct (SBN,ESI) ids of a generated case (Z up to 8, K up to 60, loss 0-70 %, repair ESIs over the 24-bit range, all three sparse thresholds); per set 8-30 delivery histories (orders: as generated / reversed / sorted / round-robin over blocks / shuffled; each packet repeated 0-3x immediately or later; 5-50 re-deliveries after the end; new packets after completion; the K-1-distinct-source-plus-duplicate trap first). Trace checker after EVERY call: decode() = add_new_packet()+get_result() = a decoder fed through a random mix of both entry points = clone taken at a random point; answer is Some iff every block's distinct received set is decodable (all source present or rank oracle of C02); once Some, always the identical bytes = the object. Block level: packet-by-packet = random batches = one shot, at every batch boundary. Flood sets: more than L repair symbols from a few classes of ids with identical LT rows (rank far below L) plus the completing symbols, delivered flood-first / flood-last / sorted / shuffled and in one call, same oracle after every call. non-trivial = history with at least one duplicate delivered after completion; distinct by history hash",
         &["rank oracle of C02 (independent RFC model) as the reference for what a set determines"],
         vec![],
     )
